@@ -279,6 +279,10 @@ func C11(rep *ev.Reporter, tier string) {
 	calls += nb
 	nontrivial += ntb
 	rep.Coverage["calls_on_a_shared_engine_value"] = nb
+	nm, ntm := c11CallerMutations(rep, tier)
+	calls += nm
+	nontrivial += ntm
+	rep.Coverage["calls_between_caller_mutations"] = nm
 	rep.Coverage["programs"] = programs
 	rep.Coverage["evaluations"] = calls
 	rep.Coverage["states"] = states
